@@ -8,7 +8,7 @@ def run(run, tier, seed):
                 "reference: VCF record at the true coordinate with the true alleles, pseudo-genomes = ancestor with the sample's "
                 "alleles; well-formedness of every run) and the precondition (contiguous (k-1)-mers unique per position and "
                 "strand over all derived samples, sites >= 2k apart and >= k inside a contig). traces: ancestors of up to 500 "
-                "(quick) / 1500 bases, 1-10 sites, 3-10 samples, k in 7..63, reference mode for k>=15, threads 1..8, -m in "
+                "(quick) / 1500 bases, 1-10 sites, 3-10 samples, k in 7..33, reference mode for k>=15, threads 1..8, -m in "
                 "{default,0,0.1,0.4}; plus arbitrary inputs (close SNPs, indels) for which only well-formedness is required. "
                 "TLC re-derives the samples, evaluates the precondition and compares. There is no implementation-shaped model "
                 "of the graph algorithm. non-trivial = precondition holds and >=1 site with >=2 alleles; distinct by scenario")
